@@ -15,7 +15,7 @@ META = {
                   'enspara.ra.ra.RaggedArray (construction, row iteration, shape)'],
     'bounds': {'quick': '<=3 trajectories, each length 1..4 (all length vectors), lag 1..5, <=3 states, sliding window on/off, '
                         'ragged / padded-rectangular input, explicit or inferred state count; state ids symbolic',
-               'thorough': 'lengths 1..5 (lag 1..6), <=4 states'},
+               'thorough': '<=3 trajectories of length 1..6 (lag 1..7) and 4 trajectories of length 1..3, <=4 states'},
     'stubs': ['scipy.sparse.coo_matrix((data,(i,j)),shape) = SymCOO: duplicates summed, out-of-range indices rejected'],
     'assumptions': ['state ids in [0, n_states) (interior -1 entries are outside the property)',
                     'additivity over trajectory sets and invariance under reordering follow from the per-trajectory sum '
@@ -107,14 +107,17 @@ def counts_job(lengths, lag, S, sliding=True, form='ragged', explicit=True, orde
 def jobs(tier):
     J = []
     q = tier == 'quick'
-    Lmax = 4 if q else 5
+    Lmax = 4 if q else 6
     Smax = 3 if q else 4
 
     def add(name, **kw):
         J.append(dict(module='harness.C03', func='counts_job', name='counts[%s]' % name, kwargs=kw,
                       sig_prefix='assigns_to_counts', deadline_s=250 if q else 1500))
     vecs = []
-    for nt in (1, 2, 3):
+    for nt in ((1, 2, 3) if q else (1, 2, 3, 4)):
+        if nt == 4:
+            vecs += [v for v in itertools.product(range(1, 4), repeat=4)]
+            continue
         for v in itertools.product(range(1, Lmax + 1), repeat=nt):
             vecs.append(v)
     # every length vector up to reordering for the big sweep, plus all orderings for a few
@@ -128,7 +131,7 @@ def jobs(tier):
         for lag in range(1, max(v) + 2):
             if q and len(v) == 3 and (lag > 2 or max(v) > 3):
                 continue
-            S = 2 if (sum(v) > 7) else Smax
+            S = 2 if (sum(v) > (7 if q else 9)) else Smax
             for sliding in (True, False):
                 if not sliding and lag == 1:
                     continue
